@@ -11,7 +11,7 @@
 import importlib
 
 from ujvc.core import Unsupported
-from ujvc.units import base_env, get, unit
+from ujvc.units import base_env, get, unit, user_value
 from ujvc.z3env import ensure_repo_first, z3
 
 from . import mgraph as M
@@ -365,7 +365,7 @@ def progress_factories_unit(ctx):
           and len(made) == 4 and not (set(map(id, o1.members)) & set(map(id, o2.members))))
     ctx.check("composite_progress:every-observer()-call-builds-a-new-composite-from-NEW-member-observers-in-order(single-use-displays-are-never-reused-across-runs)", bool(ok), info=str(made))
     hp = get("progress/__init__.py", "html_progress", native_loops="all").compile_into(env)
-    OUT = object()
+    OUT = user_value("output")
     h = hp(OUT)
     h1, h2 = h.observer(), h.observer()
     ctx.check("html_progress:a-fresh-HtmlProgressObserver(output,...intervals)-per-run", bool(isinstance(h1, HtmlProgressObserver) and h1 is not h2 and h1.output is OUT and h2.output is OUT
